@@ -52,6 +52,8 @@ def cargo_build(crate_dir, target, features=None):
     if not os.path.exists(lock):
         shutil.copy(os.path.join(REPO, "Cargo.lock"), lock)
     cmd = ["cargo", "build", "--offline", "--release"]
+    if features:
+        cmd += ["--features", ",".join(features)]
     e = env()
     e["CARGO_TARGET_DIR"] = os.path.join(BUILD, target)
     if HOOK:
@@ -80,15 +82,35 @@ def crate_dirs():
     return os.path.join(dst, "harness"), os.path.join(dst, "replay")
 
 
+MCP_OK = False  # the MCP tool handlers (crate cgt-mcp, private) are compiled into the harness from their source text
+
+
 def build_all():
+    global MCP_OK
     t0 = time.time()
     os.makedirs(BUILD, exist_ok=True)
     hd, rd = crate_dirs()
-    with ThreadPoolExecutor(2) as ex:
-        a = ex.submit(cargo_build, hd, "symx" + suffix())
-        b = ex.submit(cargo_build, rd, "replay" + suffix())
-        a.result()
-        b.result()
+
+    def both(features):
+        with ThreadPoolExecutor(2) as ex:
+            a = ex.submit(cargo_build, hd, "symx" + suffix(), features)
+            b = ex.submit(cargo_build, rd, "replay" + suffix(), features)
+            a.result()
+            b.result()
+
+    if HOOK:  # the hook variants (C16) do not need the MCP handlers
+        MCP_OK = False
+        both(None)
+        return time.time() - t0
+    try:
+        both(["mcp"])
+        MCP_OK = True
+    except BuildError as e:
+        # e.g. the private items the appended entry module names were renamed: the MCP sub-claims are then not covered,
+        # everything else is unaffected
+        MCP_OK = False
+        log("NOTE: crates/cgt-mcp/src could not be compiled into the harness; MCP sub-claims are NOT covered in this run:\n" + str(e)[-600:])
+        both(None)
     return time.time() - t0
 
 
